@@ -15,6 +15,7 @@ class Registry(asset.Registry):
         super().__init__(staging='/var/tmp/verif_c17_staging')
         self.content = content  # {project: {release: [generation numbers]}}
         self._id = next(_N)
+        self.listings = 0       # number of release listings served (one per pick of the Latest strategy)
 
     def __hash__(self):
         return hash(self._id)
@@ -26,9 +27,11 @@ class Registry(asset.Registry):
         return list(self.content)
 
     def releases(self, project):
+        self.listings += 1
         return list(self.content.get(str(project), {}))
 
     def generations(self, project, release):
+        self.listings += 1
         return list(self.content.get(str(project), {}).get(str(release), []))
 
     def push(self, package):
@@ -81,8 +84,14 @@ def latest(case):
     out = []
     for i, step in enumerate(steps):
         if i:
-            directory.registry.content['prj'] = {str(r): list(g) for r, g in step}
-            time.sleep(0.35)
+            registry = directory.registry
+            registry.content['prj'] = {str(r): list(g) for r, g in step}
+            # wait for a refresh that STARTED after the change to have finished (not for a fixed time: the refresher
+            # thread may be starved on a loaded machine): two further listings, then the interval once more
+            seen, deadline = registry.listings, time.time() + 5
+            while registry.listings < seen + 4 and time.time() < deadline:
+                time.sleep(0.01)
+            time.sleep(0.1)
         try:
             out.append(ident(selector.select(directory, None, None)))
         except asset.Level.Listing.Empty:
